@@ -474,7 +474,7 @@ theorem post_envGet {st : St} (hI : Inv st) {e : Nat} (he : e < st.frames.size) 
         if (!__do_lift) = true then do
             modifyFrame e fun f =>
                 { store := delStore f.store name, outer := f.outer, depth := f.depth, cacheKey := f.cacheKey,
-                  function := f.function, getMiss := f.getMiss, cantCache := f.cantCache, numSet := f.numSet }
+                  function := f.function, getMiss := f.getMiss, cantCache := f.cantCache, numSet := f.numSet, localFunc := f.localFunc }
             match f.outer with
               | none => pure none
               | some _ => makeRef e name
@@ -487,7 +487,7 @@ theorem post_envGet {st : St} (hI : Inv st) {e : Nat} (he : e < st.frames.size) 
                   modifyFrame e fun f =>
                       { store := f.store, outer := f.outer, depth := f.depth, cacheKey := f.cacheKey,
                         function := f.function, getMiss := f.getMiss + 1, cantCache := f.cantCache,
-                        numSet := f.numSet }
+                        numSet := f.numSet, localFunc := f.localFunc }
                 __do_jp __r
               else __do_jp ()
       | some obj => pure (some obj)
